@@ -40,6 +40,7 @@ type loopInfo struct {
 	hdrState *State
 	written  map[string]bool // heap keys written inside (from the dry run)
 	preLoop  *State
+	writtenRefs map[string]map[string]*smt.Term // keys written only at literal references
 }
 
 type deferRec struct {
@@ -81,6 +82,7 @@ type FnCtx struct {
 	curReach  *smt.Term
 	dry       bool
 	written   map[*ssa.BasicBlock]map[string]bool
+	writtenRefs map[*ssa.BasicBlock]map[string]map[string]*smt.Term
 	heapSorts map[string]smt.Sort
 	curInstr  ssa.Instruction
 	panicked  *smt.Term
@@ -90,6 +92,16 @@ type FnCtx struct {
 	recoverVal *Val
 	typeIDs []string
 	boxes map[string]boxInfo
+	errInit map[string]bool
+	ctVals map[string]Val
+	canonDone map[string]bool
+	constFieldsUsed map[string]bool
+	callRes map[string]Val
+	callGuard map[string]*smt.Term
+	splitCases []*smt.Term
+	inAlloc bool
+	escaped map[string]bool
+	tainted map[string]bool
 	usedCallAssert map[string]bool
 	axiomDone map[string]bool
 }
@@ -156,8 +168,17 @@ func (fc *FnCtx) reset(dry bool) {
 	fc.axiomDone = map[string]bool{}
 	fc.typeIDs = nil
 	fc.boxes = map[string]boxInfo{}
+	fc.errInit = map[string]bool{}
+	fc.ctVals = map[string]Val{}
+	fc.canonDone = map[string]bool{}
+	fc.constFieldsUsed = map[string]bool{}
+	fc.callRes = map[string]Val{}
+	fc.callGuard = map[string]*smt.Term{}
+	fc.escaped = map[string]bool{}
+	fc.tainted = map[string]bool{}
 	if dry {
 		fc.written = map[*ssa.BasicBlock]map[string]bool{}
+		fc.writtenRefs = map[*ssa.BasicBlock]map[string]map[string]*smt.Term{}
 	}
 }
 
@@ -179,9 +200,18 @@ func (fc *FnCtx) Generate() (err error) {
 	fc.run()
 	for _, li := range fc.loopList {
 		li.written = map[string]bool{}
+		li.writtenRefs = map[string]map[string]*smt.Term{}
 		for b := range li.blocks {
 			for k := range fc.written[b] {
 				li.written[k] = true
+			}
+			for k, refs := range fc.writtenRefs[b] {
+				if li.writtenRefs[k] == nil {
+					li.writtenRefs[k] = map[string]*smt.Term{}
+				}
+				for n, r := range refs {
+					li.writtenRefs[k][n] = r
+				}
 			}
 		}
 	}
@@ -306,11 +336,86 @@ func (fc *FnCtx) setHeap(st *State, key string, arr *smt.Term) {
 	}
 }
 
+// setHeapQuiet updates the heap without recording a whole-key write.
+func (fc *FnCtx) setHeapQuiet(st *State, key string, arr *smt.Term) {
+	st.H[key] = fc.S.Define("H_"+key, arr)
+}
+
 func (fc *FnCtx) readKey(st *State, key string, ref *smt.Term, valSort smt.Sort) *smt.Term {
+	if ref.Op == "elemref" {
+		if t, ok := fc.constTableField(st, key, ref); ok {
+			return t
+		}
+	}
 	return smt.Select(fc.getHeap(st, key, valSort), ref)
 }
 
+// constTableField expands a read of field key of element ref.Args[1] of a
+// constant table into an ite chain over the index (the read is bounds-checked
+// at the IndexAddr, so the index is one of the rows).
+func (fc *FnCtx) constTableField(st *State, key string, ref *smt.Term) (*smt.Term, bool) {
+	id, ok := ref.Args[0].IsIntLit()
+	if !ok || id < 2000000 || int(id-2000000) >= len(fc.P.Spec.ConstTables) {
+		return nil, false
+	}
+	if cur, has := st.H[key]; has && cur != fc.entry.H[key] {
+		// look through stores at fresh (negative literal) references
+		c := fc.S.Resolve(cur, 1)
+		for c.Op == "store" {
+			if lit, ok := c.Args[1].IsIntLit(); ok && lit < 0 {
+				c = fc.S.Resolve(c.Args[0], 1)
+				continue
+			}
+			break
+		}
+		if e, ok := fc.entry.H[key]; !ok || c != e {
+			return nil, false // the field map was written in this function
+		}
+	}
+	name := fc.P.Spec.ConstTables[id-2000000]
+	rows, stt, err := fc.P.constTable(name)
+	if err != nil {
+		return nil, false
+	}
+	col := -1
+	for f := 0; f < stt.NumFields(); f++ {
+		if len(key) > len(stt.Field(f).Name()) && key[len(key)-len(stt.Field(f).Name())-1:] == "."+stt.Field(f).Name() {
+			col = f
+		}
+	}
+	if col < 0 {
+		return nil, false
+	}
+	idx := ref.Args[1]
+	t := smt.BigLit(rows[len(rows)-1][col])
+	for j := len(rows) - 2; j >= 0; j-- {
+		t = smt.Ite(smt.Eq(idx, smt.IntLit(int64(j))), smt.BigLit(rows[j][col]), t)
+	}
+	return t, true
+}
+
 func (fc *FnCtx) writeKey(st *State, key string, ref, v *smt.Term) {
+	if key == "Error.err" && !fc.inAlloc {
+		fc.errStore(ref, v, fc.pos(0))
+	}
+	if lit, ok := v.IsIntLit(); ok && lit < 0 && v.Sort == smt.Int {
+		fc.escaped[v.Op] = true
+	}
+	if fc.dry && fc.curBlock != nil {
+		if _, isLit := ref.IsIntLit(); isLit {
+			m := fc.writtenRefs[fc.curBlock]
+			if m == nil {
+				m = map[string]map[string]*smt.Term{}
+				fc.writtenRefs[fc.curBlock] = m
+			}
+			if m[key] == nil {
+				m[key] = map[string]*smt.Term{}
+			}
+			m[key][ref.Op] = ref
+			fc.setHeapQuiet(st, key, smt.Store(fc.getHeap(st, key, v.Sort), ref, v))
+			return
+		}
+	}
 	fc.setHeap(st, key, smt.Store(fc.getHeap(st, key, v.Sort), ref, v))
 }
 
@@ -332,6 +437,16 @@ func (fc *FnCtx) havocKey(st *State, key string) {
 
 func (fc *FnCtx) havocAll(st *State) {
 	for _, k := range smt.SortedKeys(fc.heapSorts) {
+		if strings.HasPrefix(k, "ghost:") {
+			if g, ok := fc.P.Ghost[k[6:]]; ok && g.Global {
+				continue // global ghosts change only through an explicit assigns clause
+			}
+		}
+		if fc.P.isConstField(k) {
+			fc.Used["field "+k+" is written only while constructing a fresh object (mechanical scan), so calls cannot change it"] = true
+			fc.constFieldsUsed[k] = true
+			continue
+		}
 		fc.havocKey(st, k)
 	}
 	fc.abstr("havoc-all")
@@ -381,6 +496,9 @@ func (fc *FnCtx) cellKey(elem types.Type) string {
 	if kindOf(elem) == KArray {
 		return "elems"
 	}
+	if kindOf(elem) == KStrArr {
+		return "elemsS"
+	}
 	return "cell:" + fc.P.TypeStr(elem, nil)
 }
 
@@ -428,6 +546,11 @@ func (fc *FnCtx) typeFacts(t *smt.Term, ty types.Type) {
 			smt.Implies(smt.Eq(smt.SlArr(t), smt.IntLit(0)), smt.And(smt.Eq(smt.SlCap(t), smt.IntLit(0)), smt.Eq(smt.SlOff(t), smt.IntLit(0))))), "")
 	case KRef, KPtr:
 		fc.S.Assert(smt.Ge(t, smt.IntLit(0)), "")
+	case KStrList:
+		fc.S.Assert(smt.Le(smt.LLen(t), maxLen), "")
+	case KStrArr:
+		a := ty.Underlying().(*types.Array)
+		fc.S.Assert(smt.Eq(smt.LLen(t), smt.IntLit(a.Len())), "")
 	}
 }
 
@@ -457,6 +580,15 @@ func (fc *FnCtx) zeroVal(ty types.Type) Val {
 		return Val{T: smt.MkSlice(smt.IntLit(0), smt.IntLit(0), smt.IntLit(0), smt.IntLit(0)), GoT: ty}
 	case KRef, KPtr:
 		return fc.fromTerm(smt.IntLit(0), ty)
+	case KStrList:
+		return Val{T: smt.LNil, GoT: ty}
+	case KStrArr:
+		a := ty.Underlying().(*types.Array)
+		z := fc.S.Fresh("zerosS", smt.SList)
+		i := smt.Const("i!z", smt.Int)
+		fc.S.Assert(smt.Eq(smt.LLen(z), smt.IntLit(a.Len())), "")
+		fc.S.Assert(smt.Forall([]*smt.Term{i}, smt.Eq(smt.LAt(z, i), smt.SEmpty), []*smt.Term{smt.LAt(z, i)}), "")
+		return Val{T: z, GoT: ty}
 	case KArray:
 		a := ty.Underlying().(*types.Array)
 		z := fc.S.Fresh("zeros", smt.Seq)
@@ -535,9 +667,12 @@ func (fc *FnCtx) loadLoc(st *State, l *Loc, ty types.Type, guard *smt.Term, wher
 	case LElem:
 		seq := fc.readKey(st, "elems", l.Base, smt.Seq)
 		t := smt.SAt(seq, l.Idx)
+		if l.Off != nil {
+			t = smt.SAtOff(seq, l.Off, l.Idx)
+		}
 		switch kindOf(ty) {
 		case KInt:
-			fc.S.Assert(smt.Implies(smt.And(smt.Le(smt.IntLit(0), l.Idx), smt.Lt(l.Idx, smt.SLen(seq))), inRange(t, ty)), "")
+			fc.S.Assert(inRange(t, ty), "")
 			return Val{T: t, GoT: ty}
 		case KRef, KPtr:
 			return fc.fromTerm(t, ty)
@@ -551,6 +686,11 @@ func (fc *FnCtx) loadLoc(st *State, l *Loc, ty types.Type, guard *smt.Term, wher
 		}
 		t := fc.readKey(st, l.Key, smt.IntLit(0), sortOfKind(kindOf(ty)))
 		return fc.loaded(t, ty)
+	case LStrElem:
+		lst := fc.readKey(st, "elemsS", l.Base, smt.SList)
+		return Val{T: smt.LAt(lst, l.Idx), GoT: ty}
+	case LListElem:
+		return Val{T: smt.LAt(l.Base, l.Idx), GoT: ty}
 	}
 	panic("loadLoc")
 }
@@ -615,13 +755,22 @@ func (fc *FnCtx) storeLoc(st *State, l *Loc, ty types.Type, v Val, guard *smt.Te
 			return
 		}
 		seq := fc.readKey(st, "elems", l.Base, smt.Seq)
-		fc.writeKey(st, "elems", l.Base, smt.SUpd(seq, l.Idx, fc.term(v)))
+		idx := l.Idx
+		if l.Off != nil {
+			idx = smt.Add(l.Off, l.Idx)
+		}
+		fc.writeKey(st, "elems", l.Base, smt.SUpd(seq, idx, fc.term(v)))
 	case LGlobal:
 		if kindOf(ty) == KStruct {
 			fc.abstr("struct-typed global store")
 			return
 		}
 		fc.writeKey(st, l.Key, smt.IntLit(0), fc.term(v))
+	case LStrElem:
+		lst := fc.readKey(st, "elemsS", l.Base, smt.SList)
+		fc.writeKey(st, "elemsS", l.Base, smt.LUpd(lst, l.Idx, fc.term(v)))
+	case LListElem:
+		fc.refuse("in-place write to an element of a []string (string slices are modelled as immutable lists)")
 	}
 }
 
@@ -672,7 +821,7 @@ func (fc *FnCtx) nilCheck(base, guard *smt.Term, where string) {
 	if v, ok := base.IsIntLit(); ok && v != 0 {
 		return
 	}
-	if strings.HasPrefix(base.Op, "sub!") {
+	if strings.HasPrefix(base.Op, "sub!") || base.Op == "elemref" {
 		return
 	}
 	fc.safety("nil", guard, smt.Neq(base, smt.IntLit(0)), where)
@@ -738,8 +887,22 @@ func (fc *FnCtx) run() {
 	}
 	if fc.C != nil {
 		for _, ln := range fc.C.UseLemmas {
+			if fc.assumeGlobalInv(ln, st0) {
+				continue
+			}
 			fc.assumeLemma(ln)
 		}
+	}
+	fc.splitCases = nil
+	if fc.C != nil && len(fc.C.Split) > 0 {
+		var all []*smt.Term
+		for i, e := range fc.C.Split {
+			ec := &evalCtx{fc: fc, vars: fc.params, cur: st0, old: st0}
+			c := fc.S.Define(fmt.Sprintf("case!%d", i), ec.boolean(e))
+			fc.splitCases = append(fc.splitCases, c)
+			all = append(all, c)
+		}
+		fc.splitCases = append(fc.splitCases, fc.S.Define("case!else", smt.Not(smt.Or(all...))))
 	}
 	fc.vacuity("entry", smt.True)
 	for _, b := range fc.topo() {
